@@ -210,12 +210,80 @@ func c03ProtoCoq(p proxy.Proto) string {
 	}
 }
 
+// c03QCoq renders the question section as the model's HandleBefore reads it:
+// every question with name, type and class ([the_question] mirrors
+// len(Question) == 1 and passes name and type on).
 func c03QCoq(req *dns.Msg) string {
-	if len(req.Question) != 1 {
-		return vfOpt("bytes * N", false, "")
+	items := make([]string, len(req.Question))
+	for i, q := range req.Question {
+		items[i] = vfApp("mkQ", vfBytes(q.Name), vfN(uint64(q.Qtype)), vfN(uint64(q.Qclass)))
 	}
-	q := req.Question[0]
-	return vfOpt("bytes * N", true, vfPair(vfBytes(q.Name), vfN(uint64(q.Qtype))))
+	return vfApp("the_question", vfList("question", items))
+}
+
+// c03QClasses: IN, CH, HS, NONE, ANY, and values without a name.
+var c03QClasses = []uint16{dns.ClassINET, dns.ClassCHAOS, dns.ClassHESIOD, dns.ClassNONE, dns.ClassANY, 0, 2, 65280}
+
+// c03VaryQuestion gives the question another class a third of the time and,
+// now and then, removes it or adds a second one (the code tests the blocked
+// hosts for a single question only).
+func c03VaryQuestion(r *vfRand, req *dns.Msg) *dns.Msg {
+	if len(req.Question) != 1 {
+		return req
+	}
+	if r.Chance(1, 3) {
+		req.Question[0].Qclass = vfPick(r, c03QClasses[1:])
+	}
+	switch r.Intn(30) {
+	case 0:
+		// (histories leave the count alone, see c03VaryClass: dnsproxy
+		// answers such a message SERVFAIL right after the hook, the request
+		// handler, processInitial included, never sees it)
+		req.Question = nil
+	case 1:
+		q2 := req.Question[0]
+		q2.Name = vfPick(r, vfNames) + "."
+		req.Question = append(req.Question, q2)
+	}
+	return req
+}
+
+// c03VaryClass changes the class only.
+func c03VaryClass(r *vfRand, req *dns.Msg) *dns.Msg {
+	if len(req.Question) == 1 && r.Chance(1, 3) {
+		req.Question[0].Qclass = vfPick(r, c03QClasses[1:])
+	}
+	return req
+}
+
+// c03QClassesOf names the question-section classes of a request; blocked says
+// that its single question's name is on the blocked-hosts list.
+func c03QClassesOf(req *dns.Msg, blocked bool) (cs []string) {
+	switch len(req.Question) {
+	case 0:
+		return []string{"q-count-0"}
+	case 1:
+	default:
+		return []string{"q-count-2"}
+	}
+	c := "q-class-other"
+	switch req.Question[0].Qclass {
+	case dns.ClassINET:
+		c = "q-class-in"
+	case dns.ClassCHAOS:
+		c = "q-class-ch"
+	case dns.ClassHESIOD:
+		c = "q-class-hs"
+	case dns.ClassNONE:
+		c = "q-class-none"
+	case dns.ClassANY:
+		c = "q-class-any"
+	}
+	cs = []string{c}
+	if blocked && req.Question[0].Qclass != dns.ClassINET {
+		cs = append(cs, "q-blocked-name-class-not-in")
+	}
+	return cs
 }
 
 // c03HostRules draws blocked-host lines.
@@ -829,6 +897,7 @@ func TestVerifC03(t *testing.T) {
 				hostMust = -1
 			}
 			noReply := proto == proxy.ProtoUDP || proto == proxy.ProtoDNSCrypt
+			c.Classes = append(c.Classes, c03QClassesOf(req, hostMust > 0)...)
 			switch {
 			case excluded || hostMust > 0:
 				if noReply && class != "before-drop" {
@@ -861,6 +930,24 @@ func TestVerifC03(t *testing.T) {
 		before(nil, []string{"10.0.0.0/8"}, nil, p, cliSrvFor("kid"), true, ip("192.168.1.5"), q("a.test.", dns.TypeA), uint64(300+i))
 		before([]string{"MyPhone"}, nil, nil, p, cliSrvFor("MyPhone"), true, ip("192.168.1.5"), q("a.test.", dns.TypeA), uint64(400+i))
 		before(nil, []string{"MyPhone"}, nil, p, cliSrvFor("myPHONE"), true, ip("192.168.1.5"), q("a.test.", dns.TypeA), uint64(500+i))
+	}
+	// the question's class: the names of the default list are asked with
+	// class CH (dig CH TXT version.bind); HS, NONE, ANY and nameless values
+	qc := func(name string, qt, qclass uint16) *dns.Msg {
+		m := createTestMessageWithType(name, qt)
+		m.Question[0].Qclass = qclass
+		return m
+	}
+	defaultHosts := []*vfRule{{IsHost: true, Names: []string{"version.bind"}}, {IsHost: true, Names: []string{"id.server"}}, {IsHost: true, Names: []string{"hostname.bind"}}}
+	for i, p := range c03Protos {
+		before(nil, nil, defaultHosts, p, cliSrvFor(""), true, ip("10.0.0.1"), qc("version.bind.", dns.TypeTXT, dns.ClassCHAOS), uint64(610+i))
+		before(nil, nil, defaultHosts, p, cliSrvFor(""), true, ip("10.0.0.1"), qc("VERSION.bind.", dns.TypeTXT, dns.ClassINET), uint64(620+i))
+		before(nil, nil, []*vfRule{mk("||a.test^")}, p, cliSrvFor("kid"), true, ip("10.0.0.1"), qc("b.a.test.", dns.TypeTXT, dns.ClassHESIOD), uint64(630+i))
+	}
+	for i, cl := range c03QClasses {
+		before(nil, nil, defaultHosts, proxy.ProtoTCP, "", true, ip("10.0.0.1"), qc("hostname.bind.", dns.TypeTXT, cl), uint64(640+i))
+		before(nil, nil, defaultHosts, proxy.ProtoUDP, "", true, ip("10.0.0.1"), qc("id.server.", dns.TypeA, cl), uint64(650+i))
+		before(nil, nil, defaultHosts, proxy.ProtoTCP, "", true, ip("10.0.0.1"), qc("x.test.", dns.TypeTXT, cl), uint64(660+i))
 	}
 	before(nil, nil, nil, proxy.ProtoTLS, "bad_id."+c03SrvName, true, ip("10.0.0.1"), q("a.test.", dns.TypeA), 600)
 	before(nil, nil, nil, proxy.ProtoTLS, "other.name", true, ip("10.0.0.1"), q("a.test.", dns.TypeA), 601)
@@ -901,7 +988,7 @@ func TestVerifC03(t *testing.T) {
 				srv = "bad_id." + c03SrvName
 			}
 			name := vfMixCase(rnd, vfPick(rnd, vfNames)) + "."
-			before(allowed, blocked, hosts, p, srv, rnd.Bool(), c03Addr(rnd), q(name, vfPick(rnd, vfQTypes)), uint64(1000+i*4+k))
+			before(allowed, blocked, hosts, p, srv, rnd.Bool(), c03Addr(rnd), c03VaryQuestion(rnd, q(name, vfPick(rnd, vfQTypes))), uint64(1000+i*4+k))
 		}
 	}
 
@@ -975,6 +1062,7 @@ func TestVerifC03(t *testing.T) {
 			if len(x.Req.Question) == 1 {
 				hostMust = c03HostMust(hosts, strings.ToLower(strings.TrimSuffix(x.Req.Question[0].Name, ".")), x.Req.Question[0].Qtype)
 			}
+			c.Classes = append(c.Classes, c03QClassesOf(x.Req, hostMust > 0)...)
 			switch {
 			case excluded || hostMust > 0:
 				if excluded && id != "" && c03Listed(append(append([]string{}, blocked...), allowed...), netip.Addr{}, id) {
@@ -1078,7 +1166,7 @@ func TestVerifC03(t *testing.T) {
 		strict := rc.Bool()
 		for k := 0; k < 2; k++ {
 			name := vfMixCase(rc, vfPick(rc, vfNames)) + "."
-			x := c03GenCtx(rc, srv, strict, c03Addr(rc), q(name, vfPick(rc, vfQTypes)), uint64(5000+i*2+k))
+			x := c03GenCtx(rc, srv, strict, c03Addr(rc), c03VaryQuestion(rc, q(name, vfPick(rc, vfQTypes))), uint64(5000+i*2+k))
 			if x.Kind == "valid" && rc.Chance(1, 3) {
 				// make the presented ClientID a listed one
 				e := vfMixCase(rc, strings.ToLower(x.Presented))
@@ -1302,7 +1390,7 @@ func TestVerifC03(t *testing.T) {
 			if !addr.IsValid() {
 				addr = ip("10.0.0.1")
 			}
-			x := c03GenCtx(rh, c03SrvName, strict, addr, q(vfPick(rh, vfNames)+".", vfPick(rh, vfQTypes)), rid)
+			x := c03GenCtx(rh, c03SrvName, strict, addr, c03VaryClass(rh, q(vfPick(rh, vfNames)+".", vfPick(rh, vfQTypes))), rid)
 			ops = append(ops, histOp{x: x})
 			pending = append(pending, rid)
 		}
@@ -1353,7 +1441,11 @@ func TestVerifC03(t *testing.T) {
 	evict(defaultClientIDCacheCount)
 
 	// --- through dnsproxy on loopback sockets
-	wire := func(allowed, blocked []string, hosts []*vfRule, name string) {
+	wire := func(allowed, blocked []string, hosts []*vfRule, name string, qtc ...uint16) {
+		qtype, qclass := uint16(dns.TypeA), uint16(dns.ClassINET)
+		if len(qtc) == 2 {
+			qtype, qclass = qtc[0], qtc[1]
+		}
 		ups := &c03Upstream{}
 		ql := &c03QueryLog{}
 		st := &c03Stats{}
@@ -1385,7 +1477,8 @@ func TestVerifC03(t *testing.T) {
 		for _, proto := range []proxy.Proto{proxy.ProtoUDP, proxy.ProtoTCP} {
 			before0 := ups.calls.Load()
 			log0, st0 := ql.adds.Load(), st.updates.Load()
-			req := createTestMessageWithType(name, dns.TypeA)
+			req := createTestMessageWithType(name, qtype)
+			req.Question[0].Qclass = qclass
 			cl := &dns.Client{Net: string(proto), Timeout: 400 * time.Millisecond}
 			resp, _, err := cl.Exchange(req, s.dnsProxy.Addr(proto).String())
 			replyClass := 3
@@ -1407,15 +1500,18 @@ func TestVerifC03(t *testing.T) {
 				Classes:    []string{fmt.Sprintf("wire-%s-reply-%d", proto, replyClass)},
 				MonitorOK:  true,
 				Desc: map[string]any{"allowed": allowed, "disallowed": blocked, "blocked_hosts": vfRuleTexts(hosts),
-					"proto": string(proto), "name": name, "reply_class": replyClass, "upstream_calls": runs, "logged": logged, "counted": counted},
+					"proto": string(proto), "name": name, "qtype": dns.TypeToString[qtype], "qclass": qclass, "reply_class": replyClass, "upstream_calls": runs, "logged": logged, "counted": counted},
 			}
 			excluded := c03Excluded(allowed, blocked, cliIP, "")
-			hostMust := c03HostMust(hosts, strings.ToLower(strings.TrimSuffix(name, ".")), dns.TypeA)
+			hostMust := c03HostMust(hosts, strings.ToLower(strings.TrimSuffix(name, ".")), qtype)
+			if qclass != dns.ClassINET {
+				c.Classes = append(c.Classes, fmt.Sprintf("wire-%s-class-not-in", proto))
+			}
 			fail := func(msg string) {
 				c.MonitorOK = false
-				c.MonitorMsg = fmt.Sprintf("%s (allowed=%q disallowed=%q blocked_hosts=%q proto=%s name=%s reply=%d upstream=%d logged=%d counted=%d)",
-					msg, allowed, blocked, vfRuleTexts(hosts), proto, name, replyClass, runs, logged, counted)
-				c.FindingKey = "wire-" + vfHash(allowed, blocked, vfRuleTexts(hosts), proto, name)
+				c.MonitorMsg = fmt.Sprintf("%s (allowed=%q disallowed=%q blocked_hosts=%q proto=%s name=%s qtype=%s qclass=%d reply=%d upstream=%d logged=%d counted=%d)",
+					msg, allowed, blocked, vfRuleTexts(hosts), proto, name, dns.TypeToString[qtype], qclass, replyClass, runs, logged, counted)
+				c.FindingKey = "wire-" + vfHash(allowed, blocked, vfRuleTexts(hosts), proto, name, qtype, qclass)
 			}
 			if excluded || hostMust > 0 {
 				want := 1
@@ -1442,6 +1538,12 @@ func TestVerifC03(t *testing.T) {
 	wire([]string{"127.0.0.1"}, []string{"127.0.0.1"}, nil, "a.test.")
 	wire(nil, []string{"10.0.0.0/8"}, []*vfRule{mk("||A.test^")}, "B.a.TEST.")
 	wire(nil, nil, []*vfRule{mk("||a.test^")}, "x.test.")
+	// the default list and the queries it exists for, over real sockets
+	wire(nil, nil, defaultHosts, "version.bind.", dns.TypeTXT, dns.ClassCHAOS)
+	wire(nil, nil, defaultHosts, "hostname.bind.", dns.TypeTXT, dns.ClassCHAOS)
+	wire(nil, nil, []*vfRule{mk("||a.test^")}, "b.a.test.", dns.TypeTXT, dns.ClassHESIOD)
+	wire(nil, nil, []*vfRule{mk("||a.test^")}, "a.test.", dns.TypeA, dns.ClassANY)
+	wire(nil, nil, defaultHosts, "x.test.", dns.TypeA, dns.ClassCHAOS)
 	nWire := out.Scale(4, 40)
 	for i := 0; i < nWire; i++ {
 		var allowed, blocked []string
@@ -1463,7 +1565,11 @@ func TestVerifC03(t *testing.T) {
 	// client puts in front of the server name in its TLS handshake
 	srvTLS, _, _ := createServerTLSConfig(t)
 	tlsCert := srvTLS.Certificates[0]
-	wireTLS := func(allowed, blocked []string, hosts []*vfRule, labels []string, name string) {
+	wireTLS := func(allowed, blocked []string, hosts []*vfRule, labels []string, name string, qcl ...uint16) {
+		qclass := uint16(dns.ClassINET)
+		if len(qcl) == 1 {
+			qclass = qcl[0]
+		}
 		ups := &c03Upstream{}
 		ql := &c03QueryLog{}
 		st := &c03Stats{}
@@ -1516,6 +1622,7 @@ func TestVerifC03(t *testing.T) {
 			}
 			up0, log0, st0 := ups.calls.Load(), ql.adds.Load(), st.updates.Load()
 			req := createTestMessageWithType(name, dns.TypeA)
+			req.Question[0].Qclass = qclass
 			replyClass := 3
 			conn, err := dns.DialTimeoutWithTLS("tcp-tls", addr, &tls.Config{ServerName: sni, InsecureSkipVerify: true, MinVersion: tls.VersionTLS12}, 10*time.Second)
 			if err != nil {
@@ -1592,6 +1699,7 @@ func TestVerifC03(t *testing.T) {
 				defer func() { _ = qu.Close() }()
 				up0, log0, st0 := ups.calls.Load(), ql.adds.Load(), st.updates.Load()
 				req := createTestMessageWithType(name, dns.TypeA)
+				req.Question[0].Qclass = qclass
 				replyClass := 3
 				resp, xerr := qu.Exchange(req)
 				switch {
@@ -1647,6 +1755,7 @@ func TestVerifC03(t *testing.T) {
 			{
 				up0, log0, st0 := ups.calls.Load(), ql.adds.Load(), st.updates.Load()
 				req := createTestMessageWithType(name, dns.TypeA)
+				req.Question[0].Qclass = qclass
 				body, perr := req.Pack()
 				if perr != nil {
 					t.Fatalf("packing: %v", perr)
@@ -1715,6 +1824,9 @@ func TestVerifC03(t *testing.T) {
 	wireTLS(nil, []string{"MyPhone"}, nil, []string{"", "myPHONE", "kid", "bad_id"}, "a.test.")
 	wireTLS([]string{"KID"}, []string{"127.0.0.1"}, nil, []string{"", "Kid", "x1"}, "a.test.")
 	wireTLS(nil, []string{"127.0.0.0/8"}, []*vfRule{mk("||a.test^")}, []string{"kid", "bad_id"}, "B.a.TEST.")
+	// the default list asked with class CH over DoT, DoQ and DoH
+	wireTLS(nil, nil, defaultHosts, []string{"", "kid"}, "version.bind.", dns.ClassCHAOS)
+	wireTLS(nil, nil, []*vfRule{mk("||a.test^")}, []string{"kid"}, "x.test.", dns.ClassHESIOD)
 	rw := rnd.Fork(13)
 	nWireTLS := out.Scale(2, 20)
 	for i := 0; i < nWireTLS; i++ {
